@@ -230,6 +230,15 @@ inline void fail_here(const std::string& kind, const std::string& msg) {
 
 inline void cap(const std::string& text) { out_line("CAP " + text); }
 inline void note(const std::string& text) { out_line("NOTE " + text); }
+// An invariant of the CURRENT internal representation (array layout, cursor range, list direction ...) that the property
+// does not state.  Not a verdict: a violation of the property must also show through an observable oracle (reference
+// comparison, sanitizer, the library's own asserts / self-check), which the exploration reaches in this or a successor
+// state.  Reported once per kind as a NOTE so that a representation-changing but correct refactoring raises no alarm.
+inline void advisory(const char* kind, const std::string& text) {
+    static std::set<std::string> seen;
+    stat_add("internal_anomalies");
+    if (seen.insert(kind).second) out_line(std::string("NOTE internal-representation anomaly (advisory, not a verdict) ") + kind + ": " + text.substr(0, 400));
+}
 
 // ---------------------------------------------------------------------------
 // crash report parsing
